@@ -19,6 +19,28 @@ struct Sp<T> {
     k: Spanned<T>,
 }
 
+#[derive(serde::Deserialize, Debug, Clone, Copy)]
+enum Kind {
+    #[serde(rename = "a")]
+    A,
+    #[serde(rename = "b")]
+    B,
+}
+impl ToJ for Kind {
+    fn to_j(&self) -> J {
+        proj::str_j(match self {
+            Kind::A => "a",
+            Kind::B => "b",
+        })
+    }
+}
+
+impl<A: ToJ, B: ToJ> ToJ for (A, B) {
+    fn to_j(&self) -> J {
+        json!({"k": "a", "v": [self.0.to_j(), self.1.to_j()]})
+    }
+}
+
 trait ToJ {
     fn to_j(&self) -> J;
 }
@@ -137,6 +159,9 @@ pub fn span_events(args: &Args) {
             typed::<BTreeMap<String, toml::Value>>("table", &text, &mut ty);
             typed::<BTreeMap<Spanned<String>, Spanned<toml::Value>>>("table_spanned", &text, &mut ty);
             typed::<toml::Value>("value", &text, &mut ty);
+            typed::<Kind>("enum", &text, &mut ty);
+            typed::<Vec<Kind>>("enum_array", &text, &mut ty);
+            typed::<Vec<(Kind, i64)>>("enum_tuple_array", &text, &mut ty);
         }
         writeln!(out, "{}", json!({"ev": "span", "id": r["id"], "text": r["text"], "res": res, "tree": tree,
                                    "into_mut": mut_tree, "docmut": dm, "typed": ty})).unwrap();
